@@ -134,6 +134,15 @@ impl TableBuilder for PostgresQueryBuilder {
                         column_def.name.prepare(sql.as_writer(), self.quote());
                         write!(sql, " TYPE ").unwrap();
                         self.prepare_column_type(column_type, sql);
+                        // USING belongs to the TYPE clause, wherever it was given
+                        let using = column_def.spec.iter().find_map(|spec| match spec {
+                            ColumnSpec::Using(expr) => Some(expr),
+                            _ => None,
+                        });
+                        if let Some(expr) = using {
+                            write!(sql, " USING ").unwrap();
+                            QueryBuilder::prepare_simple_expr(self, expr, sql);
+                        }
                     }
                     let first = column_def.types.is_none();
 
@@ -144,9 +153,9 @@ impl TableBuilder for PostgresQueryBuilder {
                             ColumnSpec::AutoIncrement
                                 | ColumnSpec::Generated { .. }
                                 | ColumnSpec::Comment(_)
+                                | ColumnSpec::Using(_)
                         );
-                        // USING continues the preceding TYPE clause
-                        if !first && !no_clause && !matches!(column_spec, ColumnSpec::Using(_)) {
+                        if !first && !no_clause {
                             write!(sql, ", ").unwrap();
                         }
                         match column_spec {
@@ -181,10 +190,7 @@ impl TableBuilder for PostgresQueryBuilder {
                             ColumnSpec::Generated { .. } => {}
                             ColumnSpec::Extra(string) => write!(sql, "{string}").unwrap(),
                             ColumnSpec::Comment(_) => {}
-                            ColumnSpec::Using(expr) => {
-                                write!(sql, " USING ").unwrap();
-                                QueryBuilder::prepare_simple_expr(self, expr, sql);
-                            }
+                            ColumnSpec::Using(_) => {}
                         }
                         first && no_clause
                     });
